@@ -48,6 +48,11 @@ def cases(tier, seed):
             for dt in ("float64", "float32"):
                 out.append({"xp": xp, "dtype": dt, "seed": [seed, 4, k], "n": per, "kind": "diag"})
                 k += 1
+            if b % 3 == 0:
+                # no precision requested at all (dtype=None): the namespace default applies; bounds are then also given the
+                # way users write them - as plain Python integers - in part of the specs
+                out.append({"xp": xp, "dtype": {"numpy": "float64", "jax": "float64", "torch": "float32"}[xp], "dtype_none": True, "seed": [seed, 4, k], "n": per, "kind": "diag"})
+                k += 1
     nf = {"quick": 3, "thorough": 24}[tier]
     for b in range(nf):
         for backend, xp in (("zuko", "torch"), ("zuko", "numpy"), ("flowjax", "jax")):
@@ -93,7 +98,13 @@ def gen_spec(g, dt):
     if kind in ("affine", "identity"):
         lo = np.full(d, -np.inf)
         hi = np.full(d, np.inf)
-    spec = {"kind": kind, "d": d, "lo": lo, "hi": hi}
+    int_bounds = False
+    if MODE["dtype_none"] and g.random() < 0.4:
+        # degrees, hours, unit phases: integer-valued bounds (written as Python integers when no dtype is requested)
+        lo = np.array([float(g.integers(-5, 6)) for _ in range(d)])
+        hi = lo + np.array([float(g.choice([1, 2, 10, 24, 360])) for _ in range(d)])
+        int_bounds = True
+    spec = {"kind": kind, "d": d, "lo": lo, "hi": hi, "int_bounds": int_bounds and kind not in ("affine", "identity")}
     if kind in ("composite", "flowtransform"):
         types = []
         for j in range(d):
@@ -110,6 +121,8 @@ def gen_spec(g, dt):
         spec["affine"] = bool(g.random() < 0.5)
         spec["per_rev"] = bool(g.random() < 0.5)
         spec["pb_rev"] = bool(g.random() < 0.5)
+        if spec["int_bounds"]:
+            types = spec["types"] = [t if t in ("bounded", "periodic") else "bounded" for t in types]
         for j, t in enumerate(types):
             if t == "free":
                 lo[j], hi[j] = -np.inf, np.inf
@@ -181,12 +194,21 @@ def gen_points(g, spec, n, dt):
     return x, roles
 
 
-def build(spec, xp, dtype_name):
+MODE = {"dtype_none": False}
+
+
+def build(spec, xp, dtype_name, reference=False):
     from aspire import transforms as T
 
     kind = spec["kind"]
     lo, hi = spec["lo"], spec["hi"]
     d = spec["d"]
+    as_int = False
+    if MODE["dtype_none"] and not reference:
+        dtype_name = None
+        as_int = bool(spec.get("int_bounds"))
+    if as_int:
+        lo, hi = [int(v) for v in lo], [int(v) for v in hi]
     if kind == "identity":
         return T.IdentityTransform(xp=xp, dtype=dtype_name)
     if kind == "periodic":
@@ -198,7 +220,7 @@ def build(spec, xp, dtype_name):
     if kind == "affine":
         return T.AffineTransform(xp=xp, dtype=dtype_name)
     params = [PARAM_NAMES[j] for j in range(d)]
-    pb = {p: [float(lo[j]), float(hi[j])] for j, p in enumerate(params)}
+    pb = {p: ([int(lo[j]), int(hi[j])] if as_int else [float(lo[j]), float(hi[j])]) for j, p in enumerate(params)}
     if spec.get("pb_rev"):
         pb = dict(reversed(list(pb.items())))  # a mapping has no meaningful order: bounds belong to names, not to positions
     if kind == "composite":
@@ -259,7 +281,7 @@ def judge_diag(spec, xpn, dt, g, counters, viol):
     xp = env.xp_of(xpn)
     eps = float(np.finfo(dt).eps)
     t = Rec(build(spec, xp, dt))
-    t64 = t if dt == "float64" else Rec(build(spec, xp, "float64"))
+    t64 = t if (dt == "float64" and not MODE["dtype_none"]) else Rec(build(spec, xp, "float64", reference=True))
     kind = spec["kind"]
     nfit = int(g.choice([8, 64, 257]))
     nb = int(g.choice([1, 2, 257]))
@@ -528,8 +550,11 @@ def run_case(case):
         return {"viol": _dedup(viol), "counters": dict(counters), "nontrivial": sorted(nontrivial), "sample": {"flowprec": sig}}
     g = np.random.default_rng(case["seed"])
     sample = None
+    MODE["dtype_none"] = bool(case.get("dtype_none"))
+    counters["specs_without_requested_dtype"] += case["n"] if MODE["dtype_none"] else 0
     for _ in range(case["n"]):
         spec = gen_spec(g, case["dtype"])
+        counters["specs_with_integer_bounds"] += int(bool(spec.get("int_bounds")))
         before = counters["jac_points_judged"]
         judge_diag(spec, case["xp"], case["dtype"], g, counters, viol)
         if spec["kind"] != "identity" and counters["jac_points_judged"] > before:
